@@ -147,6 +147,29 @@ class Script:
                 self.pipes[op['var']] = p
                 kw['results_pipe'] = p
             target = getattr(targets, op['target']) if op.get('target') else None
+            if op.get('slow_reader') and kind in ('R', 'PR'):
+                # the parent reads its data connection slowly (small reads with pauses): a parent-side schedule
+                sr = op['slow_reader']
+
+                class Throttled:
+                    def __init__(self, sock):
+                        self._s = sock
+
+                    def recv(self, n, *a):
+                        time.sleep(sr.get('sleep', 0.02))
+                        return self._s.recv(min(n, sr.get('chunk', 8192)), *a)
+
+                    def __getattr__(self, name):
+                        return getattr(self._s, name)
+                base_cls = cls
+                orig = base_cls._fetch_results
+
+                def slow_fetch(wself):
+                    wself._socket = Throttled(wself._socket)
+                    return orig(wself)
+                base_cls._fetch_results = slow_fetch          # (a subclass could not be pickled by reference)
+                self.class_patches = getattr(self, 'class_patches', [])
+                self.class_patches.append((base_cls, '_fetch_results', orig))
 
             def mk():
                 if op.get('factory'):
@@ -819,6 +842,8 @@ class Script:
 
     def cleanup(self):
         left = []
+        for c_, name_, orig_ in getattr(self, 'class_patches', []):
+            setattr(c_, name_, orig_)
         if getattr(self, 'inproc', False):
             try:
                 import pwv_inject
